@@ -1150,8 +1150,8 @@ class Gen:
                 dn = fg.lname(d); fg.decls[dn] = 'void*'; fg.vtypes[d] = t
                 # both views of the 8 bytes: the pointer view keeps provenance when the bytes are a pointer, the integer view keeps an
                 # integer foldable ((uint64_t)(void*)21 is not folded by CBMC); each store picks the view that fits its destination
-                fg.decls[dn + '_i'] = 'uint64_t'
-                code.append('%s = (*(void**)%s); %s_i = (*(uint64_t*)%s);' % (dn, a, dn, a)); return
+                fg.decls[dn + '__ri'] = 'uint64_t'
+                code.append('%s = (*(void**)%s); %s__ri = (*(uint64_t*)%s);' % (dn, a, dn, a)); return
             self.define(fg, d, t, '(*%s)' % a, code); return
         if op == 'store':
             atomic = p.accept('atomic'); p.accept('volatile')
@@ -1162,7 +1162,7 @@ class Gen:
             a, pt = self.typed_value(p, fg)
             if is_raw and not atomic:
                 if addr_tok[0] == 'local' and addr_tok[1] in getattr(fg, 'plain_addr', ()) and not os.environ.get('IR2C_RAW_ALL'):
-                    code.append('*(uint64_t*)%s = %s_i;' % (a, fg.lname(raw_name))); return     # destination is a genuine integer/double field
+                    code.append('*(uint64_t*)%s = %s__ri;' % (a, fg.lname(raw_name))); return     # destination is a genuine integer/double field
                 code.append('*(void**)%s = %s;' % (a, v)); return
             if atomic:
                 order = p.next()[1]
